@@ -333,6 +333,8 @@ type keyCase struct {
 	H          int    `json:"h"`
 	Seed       pu.HB  `json:"seed"`
 	AddrFormat uint   `json:"addr_format,omitempty"`
+	SigType    uint   `json:"sig_type,omitempty"`
+	Third      uint8  `json:"third_descriptor_byte,omitempty"`
 }
 
 func checkKey(c *keyCase) (string, string) {
@@ -374,6 +376,38 @@ func checkKey(c *keyCase) (string, string) {
 		}
 		return "", ""
 	}
+	if c.Scheme == "xmss-from-extended-seed" {
+		// a key object built from an extended seed DECODES the descriptor it is given and ENCODES it again in its public
+		// key, its extended seed and its address: every field value must survive (signature-type nibble 0..15 included;
+		// the third byte is not part of any field and comes back as 0)
+		var es [common.ExtendedSeedSize]uint8
+		d := codecref.Desc(c.Hash, c.SigType, uint(c.H), 0)
+		copy(es[:], d[:])
+		es[2] = c.Third
+		copy(es[3:], c.Seed)
+		var x *xmss.XMSS
+		if o := ev.Try(func() { x = xmss.NewXMSSFromExtendedSeed(es) }); o.Panicked {
+			return "key/extended-seed-constructor", fmt.Sprintf("NewXMSSFromExtendedSeed(%x...) refused: %s", es[:3], o)
+		}
+		pk, back := x.GetPK(), x.GetExtendedSeed()
+		if pk[0] != d[0] || pk[1] != d[1] || pk[2] != 0 {
+			return "key/extended-seed-descriptor-in-pk", fmt.Sprintf("key built from an extended seed with descriptor %x carries %x in its public key", d[:2], pk[:3])
+		}
+		es[2] = 0
+		if back != es {
+			return "key/extended-seed-roundtrip", fmt.Sprintf("GetExtendedSeed() starts with %x, the key was built from %x", back[:3], es[:3])
+		}
+		if a, w := x.GetAddress(), codecref.XMSSAddress(pk[:]); a != w || a[0] != d[0] || a[1] != d[1] {
+			return "key/extended-seed-address", fmt.Sprintf("GetAddress = %x, reference %x (descriptor given: %x)", a, w, d[:2])
+		}
+		if c.SigType == 0 {
+			// and it is the same key as the one built from the bare seed
+			if y := pu.NewXMSS(c.Seed, c.H, xmss.HashFunction(c.Hash)); y.GetPK() != pk {
+				return "key/extended-seed-vs-seed", "keys built from the seed and from its extended seed differ"
+			}
+		}
+		return "", ""
+	}
 	x := pu.NewXMSS(c.Seed, c.H, xmss.HashFunction(c.Hash))
 	pk := x.GetPK()
 	if a, w := x.GetAddress(), codecref.XMSSAddress(pk[:]); a != w || a != xmss.GetXMSSAddressFromPK(pk) {
@@ -395,10 +429,17 @@ func checkKey(c *keyCase) (string, string) {
 
 func TestKeyObjects(t *testing.T) {
 	r := ev.New(t, prop, "TestKeyObjects")
-	r.Rule("real key objects (XMSS: 3 hashes x h in {4,6}; Dilithium) from rapid seeds: GetAddress / GetLegacyAddress equal the reference formulas of GetPK, the descriptor bytes equal the reference packing, the extended seed's descriptor decodes to the key's parameters, and the derived addresses are valid for the own scheme only; non-trivial = every key, distinct by (scheme,hash,h,seed)")
+	r.Rule("real key objects (XMSS: 3 hashes x h in {4,6}; Dilithium) from rapid seeds: GetAddress / GetLegacyAddress equal the reference formulas of GetPK, the descriptor bytes equal the reference packing, the extended seed's descriptor decodes to the key's parameters, keys built FROM an extended seed (every signature-type nibble, any third byte) carry the given descriptor fields in GetPK / GetExtendedSeed / GetAddress, and the derived addresses are valid for the own scheme only; non-trivial = every key, distinct by (scheme,hash,h,seed)")
 	checks := r.PerShard(r.Pick(400, 12000))
 	r.Rapid(t, "keys", checks, func(rt *rapid.T) {
-		c := &keyCase{Scheme: rapid.SampledFrom([]string{"xmss", "dilithium"}).Draw(rt, "scheme"), Seed: pu.Seed48().Draw(rt, "seed")}
+		c := &keyCase{Scheme: rapid.SampledFrom([]string{"xmss", "dilithium", "xmss-from-extended-seed"}).Draw(rt, "scheme"), Seed: pu.Seed48().Draw(rt, "seed")}
+		if c.Scheme == "xmss-from-extended-seed" {
+			c.Hash = uint(rapid.SampledFrom(pu.Hashes).Draw(rt, "hash"))
+			c.H = rapid.SampledFrom([]int{4, 4, 4, 6}).Draw(rt, "h")
+			c.SigType = uint(rapid.SampledFrom([]int{0, 0, 1, 2, 7, 8, 15, -1}).Draw(rt, "sigType") & 15)
+			c.Third = rapid.SampledFrom([]uint8{0, 0, 1, 0x80, 0xff}).Draw(rt, "third")
+			r.Count(fmt.Sprintf("extended_seed_keys_sigtype_%d", c.SigType), 1)
+		}
 		if c.Scheme == "xmss" {
 			c.Hash = uint(rapid.SampledFrom(pu.Hashes).Draw(rt, "hash"))
 			c.H = rapid.SampledFrom([]int{4, 4, 4, 6}).Draw(rt, "h")
